@@ -16,7 +16,7 @@ def rvalue(r, depth=0):
     if k == 2:
         return r.randrange(-5, 100)
     if k == 3:
-        return r.choice([0.5, -1.25, 1e10, 3000000000, 17.5, 1e-3])
+        return r.choice([0.5, -1.25, 1e10, 3000000000, 17.5, 1e-3, 1.0000000000000004, 1.0000000000000007])
     if k in (4, 5):
         return r.choice(["", "x", "hello", "café", "q\"uote", "back\\slash", "tab\t"])
     if k == 6:
@@ -173,6 +173,25 @@ class Gen:
 
     def request(self, c):
         """one request object from connection c -> AST"""
+        req = self.request0(c)
+        r = self.r
+        if r.random() < 0.04 and isinstance(req, tuple) and req[0] == "obj":
+            # params with a second, case-varied spelling of one member (cJSON lookups are case-insensitive, first match wins)
+            ms = list(req[1])
+            for i, (k, v) in enumerate(ms):
+                if k == "params" and isinstance(v, tuple) and v[0] == "obj" and v[1]:
+                    pm = list(v[1])
+                    j = r.randrange(len(pm))
+                    k2 = pm[j][0]
+                    alt = r.choice([k2.upper(), k2.capitalize()])
+                    other = r.choice(PATHS) if k2 == "path" else rvalue(r)
+                    pm.insert(r.choice([0, j, len(pm)]), (alt, other))
+                    ms[i] = (k, ("obj", pm))
+                    break
+            req = ("obj", ms)
+        return req
+
+    def request0(self, c):
         r = self.r
         k = r.choices(["add", "remove", "change", "fetch", "unfetch", "get", "set", "call", "config", "info", "auth", "passwd", "bad"],
                       [16, 7, 12, 12, 5, 6, 10, 8, 2, 2, 6 if self.auth else 1, 2 if self.auth else 0.3, 4])[0]
@@ -185,7 +204,7 @@ class Gen:
             if r.random() < 0.12:
                 ms.append(("fetchOnly", r.choice([True, False, True, 1])))
             if r.random() < 0.15:
-                ms.append(("timeout", r.choice([0.5, 2, 1e-3, 0.0005, -1, "1", 7.25])))
+                ms.append(("timeout", r.choice([0.5, 2, 1e-3, 0.0005, -1, "1", 7.25, 1.001, 0.0019, 2.0005, 1.003])))
             a = self.access()
             if a is not None:
                 ms.append(("access", a))
@@ -239,7 +258,7 @@ class Gen:
             elif r.random() < 0.7:
                 ms.append(("args", rvalue(r)))
             if self.timers and r.random() < 0.3:
-                ms.append(("timeout", r.choice([0.5, 1.5, 2, 0.001, 0.0001, "x", 9.75])))
+                ms.append(("timeout", r.choice([0.5, 1.5, 2, 0.001, 0.0001, "x", 9.75, 1.001, 0.0019, 2.0005, 1.005, 0.0015])))
             req = with_id(r, [("method", k), ("params", obj(*ms))])
             o = self.owned.get(p)
             if o is not None and o in self.live and self.kind.get(p) == want:
@@ -276,8 +295,13 @@ class Gen:
             return False
         o = r.choice(owners)
         kk = r.randrange(self.routed[o] + (1 if r.random() < 0.1 else 0))
-        self.steps.append(("reply", o, kk, r.choice(["result", "result", "error"]),
-                           r.choice([True, 1, obj(code=123, message="owner says no"), rvalue(r)])))
+        key = r.choice(["result", "result", "error"])
+        if r.random() < 0.08:
+            key = r.choice(["Result", "RESULT", "Error", "ERROR"])
+        if r.random() < 0.1 and self.routed[o] >= 1 and not self.single:
+            # the owner answers in a JSON array (one or several requests at once)
+            kk = sorted(set([min(kk, self.routed[o] - 1)] + [r.randrange(self.routed[o]) for _ in range(r.randrange(0, 3))]))
+        self.steps.append(("reply", o, kk, key, r.choice([True, 1, obj(code=123, message="owner says no"), rvalue(r)])))
         return True
 
     def build(self):
